@@ -95,7 +95,10 @@ def shrink_tasks(Call):
     T = []
     q = f"{SSTATE}:Stabilizer.remove_qubit"
     for mode in ("probabilistic", 0, 1):
-        T.append(Task(q, C[q], [S.StabState("T"), S.IntArg("q"), S.Const("mode", mode)], Call, inline=TABLEAU_ACCESSORS,
+        from .tasks_clifford import _basis_holds
+
+        T.append(Task(q, C[q], [S.StabState("T"), S.IntArg("q"), S.Const("mode", mode),
+                                S.Assume(z3.BoolVal(True), "valid-tableau", check=_basis_holds)], Call, inline=TABLEAU_ACCESSORS,
                       label=f"Stabilizer.remove_qubit[{mode}]"))
     return T
 
